@@ -119,6 +119,16 @@ def coq_property(pid, timeout=900):
     res["print_assumptions"] = n_print
     return res
 
+def coqchk_property(pid, timeout=2400):
+    """Independent re-check (coqchk) of Properties/<pid>.vo and everything it depends on; returns dict(ok, axioms, wall_s, tail)."""
+    t0 = time.time()
+    rc, out = sh(["coqchk", "-silent", "-o", "-Q", ".", "BB", "BB.Properties." + pid], cwd=COQ, timeout=timeout)
+    m = re.search(r"\* Axioms:\s*(.*?)\n\s*\n", out, re.S)
+    axioms = m.group(1).strip() if m else "?"
+    bad = [k for k in ("type-in-type", "unsafe (co)fixpoints", "positivity is assumed") if re.search(re.escape(k) + r":\s*<none>", out) is None]
+    return dict(ok=(rc == 0 and axioms == "<none>" and not bad), axioms=axioms, rc=rc, wall_s=round(time.time() - t0, 1),
+                tail="\n".join(out.strip().split("\n")[-14:]))
+
 # ----------------------------------------------------------------------------------------------------------------
 # OCaml checker (extraction + dune)
 # ----------------------------------------------------------------------------------------------------------------
